@@ -37,7 +37,7 @@ def A_patch(name, seeds, opts, vals, vals2, maxops, kinds=ALLKINDS, wide=1, resp
         replay = ctx.build('replay')
         tlclog = os.path.join(ctx.scratch, 'tlc_%s.log' % name)
         rargs = [replay, '-prop', ctx.prop, '-seed', str(ctx.seed), '-findings', FINDINGS, '-replays', REPLAYS,
-                 '-tlclog', tlclog, '-leadingws=false']
+                 '-tlclog', tlclog]
         if respell:
             rargs.append('-respell')
         if extra_opt:
@@ -72,37 +72,112 @@ def A_patch(name, seeds, opts, vals, vals2, maxops, kinds=ALLKINDS, wide=1, resp
 
 
 V_ALL = list(range(1, 13))
+S_ALL = list(range(1, 12))
+O_ALL = list(range(1, 12))
+INV = ('DocOK', 'CopyBound', 'LimitZeroNeverFails', 'SkipEquivalent', 'EnsureLookup')
+PROPS = ('OnlyCopyCounts', 'FirstFailureWins', 'NoOpSteps', 'OnlyRemoveForgiven', 'EnsureAgrees', 'EnsureFrame',
+         'OrderPreserved', 'LiteralsCarried')
 PATCH_ASSUME = [
     'bounded universe: seed documents, values and near-miss pointers of spec/MCPatch.tla; exhaustive only up to the stated depth',
     'the independent JSON reader of harness/jsonread is the projection (cross-checked against TLC and the library in C16/C17 runs)',
     'cases the statement places outside its domain are recognised by the specification (result "dc") and not compared',
 ]
+PATCH_RULE = ('TLC enumerates all operation sequences up to the stated depth from every seed document, with pointers generated '
+              'from the current document (resolvable + near-misses); each transition is executed on the real library and %s; '
+              'distinct_nontrivial counts distinct (seed, options, operation sequence) whose behaviour changes the document or fails')
+CORE_LABELS = ['AddMember', 'AddExisting', 'AddInsert', 'AddAppend', 'RemoveMember', 'RemoveElem',
+               'ReplaceMember', 'ReplaceElem', 'Move', 'Copy', 'TestPass', 'TestFail']
+
+
+def P(quick, thorough, rule, labels, extra_assume=()):
+    return {'quick': quick, 'thorough': thorough, 'rule': PATCH_RULE % rule, 'exhaustive': True,
+            'assumptions': PATCH_ASSUME + list(extra_assume),
+            'required_labels': {'quick': labels, 'thorough': labels}}
+
+
+def AP(name, seeds, opts, vals, vals2, maxops, **kw):
+    kw.setdefault('invariants', INV)
+    kw.setdefault('properties', PROPS)
+    return A_patch(name, seeds, opts, vals, vals2, maxops, **kw)
+
 
 PLANS = {
-    'C01': {
-        'quick': [
-            A_patch('d1', [1, 2, 3, 4, 5, 6, 8, 9], [1, 2], V_ALL, [1, 2, 9], 1, respell=True),
-            A_patch('d2', [5, 6], [1, 2], [1, 2, 6, 8, 9], [1, 2, 9], 2),
-        ],
-        'thorough': [
-            A_patch('d1', [1, 2, 3, 4, 5, 6, 7, 8, 9], [1, 2], V_ALL, [1, 2, 9], 1, respell=True),
-            A_patch('d2', [1, 2, 3, 4, 5, 6], [1, 2], V_ALL, [1, 2, 6, 8, 9], 2, timeout=6000),
-        ],
-        'rule': 'TLC enumerates all operation sequences up to the stated depth from every seed document, with pointers '
-                'generated from the current document (resolvable + near-misses); each transition is executed on the real '
-                'library (canonical and re-spelled texts) and the structural (member-order-insensitive, literal-exact) form of '
-                'the output is compared with the specification state; distinct_nontrivial counts distinct (seed, options, '
-                'operation sequence) whose behaviour changes the document or fails',
-        'exhaustive': True,
-        'assumptions': PATCH_ASSUME,
-        'required_labels': {
-            'quick': ['AddMember', 'AddExisting', 'AddInsert', 'AddAppend', 'AddRoot', 'RemoveMember', 'RemoveElem',
-                      'ReplaceMember', 'ReplaceElem', 'ReplaceRoot', 'Move', 'Copy', 'TestPass', 'TestPassAbsent',
-                      'TestFail', 'TestFailAbsent', 'AddBadIndex', 'AddNoParent', 'RemoveAbsentMember', 'MoveFromRoot'],
-        },
-    },
+    'C01': P(
+        [AP('d1', S_ALL, [1, 2], V_ALL, [1, 2, 9], 1, respell=True),
+         AP('d2', [5, 6, 10], [1, 2], [1, 2, 6, 8, 9], [1, 2, 9], 2)],
+        [AP('d1', S_ALL, [1, 2], V_ALL, [1, 2, 9], 1, respell=True),
+         AP('d2', [1, 2, 3, 4, 5, 6, 10, 11], [1, 2], V_ALL, [1, 2, 6, 8, 9], 2, timeout=9000),
+         AP('d3', [8, 9], [1, 2], [1, 2, 6, 7, 9], [1, 6, 9], 3, timeout=9000)],
+        'the structural (member-order-insensitive, literal-exact) form of the output is compared with the specification state '
+        '(canonical and re-spelled texts)',
+        CORE_LABELS + ['AddRoot', 'ReplaceRoot', 'TestPassAbsent', 'TestFailAbsent', 'AddBadIndex', 'AddNoParent',
+                       'RemoveAbsentMember', 'MoveFromRoot']),
+    'C05': P(
+        [AP('d1', S_ALL, [1], V_ALL, [1, 2, 9], 1),
+         AP('d2', [5, 10], [1], [1, 2, 6, 8, 9], [1, 2, 9], 2)],
+        [AP('d1', S_ALL, [1, 2, 8], V_ALL, [1, 2, 9], 1),
+         AP('d2', [1, 3, 4, 5, 6, 10, 11], [1], V_ALL, [1, 2, 6, 8, 9], 2, timeout=9000),
+         AP('d3', [8, 10], [1], [1, 2, 6], [1, 6], 3, kinds=['add', 'remove', 'replace', 'move', 'copy'], timeout=9000)],
+        'the ORDERED, literal-exact form of the output (member order and number literals significant) is compared with the '
+        'specification state; the empty patch is replayed for every seed',
+        CORE_LABELS + ['EmptyPatch', 'AddRoot']),
+    'C08': P(
+        [AP('d1', S_ALL, O_ALL, [1, 2, 6, 8, 9, 11], [1, 2, 9], 1),
+         AP('d2', [5, 6], [1, 5, 9], [1, 2, 6], [1, 9], 2)],
+        [AP('d1', S_ALL, O_ALL, V_ALL, [1, 2, 9], 1),
+         AP('d2', [1, 2, 5, 6, 10], [1, 3, 5, 9, 11], [1, 2, 6, 8, 9], [1, 2, 9], 2, timeout=9000)],
+        'success/failure, "no document on failure", and the error class (errors.Is ErrTestFailed / ErrMissing, errors.As '
+        '*AccumulatedCopySizeError) are compared with the class of the first failing operation in the specification; every '
+        'failing behaviour is re-run with three tails appended after the failing operation',
+        ['TestFail', 'TestFailAbsent', 'TestNoParent', 'AddNoParent', 'AddBadIndex', 'RemoveAbsentMember', 'RemoveNoParent',
+         'RemoveBadIndex', 'ReplaceAbsentMember', 'ReplaceNoParent', 'MoveFromAbsentMember', 'MoveFromNoParent',
+         'CopyFromAbsentMember', 'CopyOverLimit', 'MoveFromRoot', 'Copy', 'AddEnsure', 'RemoveSkippedMember']),
+    'C12': P(
+        [AP('d1', [1, 2, 7, 10, 11], [1, 8, 9, 10, 11], V_ALL, [1, 2, 9], 1, respell=True, extra_opt='wsonly=1'),
+         AP('d2', [10, 6], [1, 8, 9, 10], [1, 5, 8], [1, 5], 2, kinds=['copy', 'add', 'remove', 'replace'], respell=True,
+            extra_opt='wsonly=1')],
+        [AP('d1', S_ALL, [1, 8, 9, 10, 11], V_ALL, [1, 2, 9], 1, respell=True, extra_opt='wsonly=1'),
+         AP('d2', [1, 2, 7, 10, 6], [1, 8, 9, 10], [1, 5, 8], [1, 5], 2, kinds=['copy', 'add', 'remove', 'replace'], respell=True,
+            extra_opt='wsonly=1', timeout=9000),
+         AP('d3', [10], [1, 8, 9, 10], [5], [5], 3, kinds=['copy', 'remove'], timeout=9000)],
+        'for every successful behaviour ending in a copy the patch is re-run with limits total-1 (must stop with '
+        '*AccumulatedCopySizeError and no document), total, total+1, total+1000 (must succeed with the same document), through '
+        'the per-call option and through the package default; behaviours under fixed limits 7/12/20 are compared with the '
+        'specification counter (sizes as spec/JsonEnc.tla spells values; a copied null weighs 0 or 4)',
+        ['Copy', 'CopyOverLimit', 'CopyProbe_run', 'CopyProbe_err'],
+        ['the size of a copied value is EncLen of spec/JsonEnc.tla (compact, HTML escapes iff enabled); inputs are spelled '
+         'canonically or with extra white space only, so that the size in the output is that size']),
+    'C13': P(
+        [AP('d1', S_ALL, [3, 4, 7, 11], [1, 2, 6, 8, 9], [1, 2, 9], 1),
+         AP('d2', [5, 6], [3, 4], [1, 2, 6], [1, 9], 2)],
+        [AP('d1', S_ALL, [3, 4, 7, 11], V_ALL, [1, 2, 9], 1),
+         AP('d2', [1, 2, 5, 6, 10, 11], [3, 4], [1, 2, 6, 8, 9], [1, 2, 9], 2, timeout=9000),
+         AP('d3', [5, 6], [3], [1, 6], [1], 3, kinds=['add', 'remove', 'move', 'replace'], timeout=9000)],
+        'with AllowMissingPathOnRemove the output is compared with the specification, and the same patch minus the removes '
+        'the specification skipped is run WITHOUT the option: both real outcomes must agree (document or error)',
+        ['RemoveSkippedMember', 'RemoveSkippedIndex', 'RemoveSkippedNoParent', 'RemoveMember', 'RemoveElem',
+         'MoveFromAbsentMember', 'ReplaceAbsentMember', 'SkipPairs_1']),
+    'C14': P(
+        [AP('d1', S_ALL, [5, 6, 7, 11], [1, 2, 6, 8, 9], [1, 2, 9], 1),
+         AP('d2', [8, 9, 5], [5, 6], [1, 2, 6], [1, 9], 2)],
+        [AP('d1', S_ALL, [5, 6, 7, 11], V_ALL, [1, 2, 9], 1),
+         AP('d2', [1, 2, 5, 6, 8, 9, 10], [5, 6], [1, 2, 6, 8, 9], [1, 2, 9], 2, wide=2, timeout=9000)],
+        'with EnsurePathExistsOnAdd the output is compared with the specification document, in which TLC has checked that the '
+        'added value is found at the path (EnsureLookup), that nothing else changed (EnsureFrame) and that an add which '
+        'succeeds without the option gives the same document (EnsureAgrees)',
+        ['AddEnsure', 'AddMember', 'AddExisting', 'AddInsert', 'AddAppend']),
+    'C15': P(
+        [AP('d1', [7, 2, 10, 1, 8, 9], [1, 8], V_ALL, [1, 2, 9], 1),
+         AP('d2', [10], [1, 8], [1, 5, 9], [1, 5], 2)],
+        [AP('d1', S_ALL, [1, 2, 8, 7], V_ALL, [1, 2, 9], 1),
+         AP('d2', [10, 7, 5, 6], [1, 8], [1, 5, 9, 10], [1, 5, 9], 2, timeout=9000)],
+        'the raw output bytes are checked: well-formed (independent reader), valid UTF-8, structurally equal to the specification '
+        'document; EscapeHTML on: no raw < > & U+2028 U+2029; off: no escape of < > & introduced; on/off outputs equal after '
+        'normalising those escapes; ApplyIndent (three indents) equals Apply up to insignificant white space and every line is '
+        'indented depth x indent; the same patch without its passing test operations gives identical bytes',
+        ['TestPass', 'TestNoOpPairs', 'Copy', 'AddMember'],
+        ['byte-identity clauses are checked on canonically spelled inputs (spelled as spec/JsonEnc.tla Enc(v, FALSE))']),
 }
-PLANS['C01']['required_labels']['thorough'] = PLANS['C01']['required_labels']['quick']
 
 
 def replay_file(ctx, plan, path):
@@ -112,7 +187,7 @@ def replay_file(ctx, plan, path):
     if line is None:
         raise Broken('replay file has no line')
     replay = ctx.build('replay')
-    rargs = [replay, '-prop', ctx.prop, '-seed', str(ctx.seed), '-replays', os.path.join(ctx.scratch, 'replays'), '-leadingws=false']
+    rargs = [replay, '-prop', ctx.prop, '-seed', str(ctx.seed), '-replays', os.path.join(ctx.scratch, 'replays')]
     if v['case'].get('spelling') == 'respelled':
         rargs.append('-respell')
     p = subprocess.run(rargs, input=json.dumps(line) + '\n', capture_output=True, text=True, env=ctx.env)
